@@ -51,16 +51,27 @@ MaterializedBy(t, name) ==
             ELSE IF MaterializeSimplify(c) THEN c ELSE PlainSel(WithP(Mat(name, c), FALSE)))
     ELSE IF MaterializeSimplify(t) THEN t ELSE WithP(Mat(name, t), FALSE)
 
+\* Payload KINDS (finding F27): a transfer payload obtained with materialize_as = None is not made
+\* for caching (the hook may hand over a lazy iterable that re-evaluates its source); transfers created
+\* by the processor record it in the field pc (payload cacheable).  `weak` collects the names of the
+\* materializations that ADOPTED such a payload instead of asking the materialize hook.
+\* TRUE: the code after the fix of finding F27 (a companion configuration overrides it)
+FixF27 == TRUE
+WeakSource(n) == IF n.k = "xfer" THEN Has(n, "pc") /\ ~n.pc
+                 ELSE IF n.k = "sel" THEN (n.t.k = "xfer" /\ Has(n.t, "pc") /\ ~n.t.pc) ELSE FALSE
+WithPC(n, b, c) == [x \in (DOMAIN n) \cup {"p", "pc"} |-> IF x = "p" THEN b ELSE IF x = "pc" THEN c ELSE n[x]]
+
 RECURSIVE Process(_, _, _)
 Process(t, mas, paid) ==
-    IF HasPayload(t, paid) THEN [t |-> t, persisted |-> TRUE, paid |-> paid, hooks |-> <<>>]
+    \* (fix of finding F27) a payload found on a Transfer says nothing about persistence
+    IF HasPayload(t, paid) THEN [t |-> t, persisted |-> ~(FixF27 /\ t.k = "xfer"), paid |-> paid, hooks |-> <<>>, weak |-> {}]
     ELSE
     CASE t.k = "xfer" ->
             IF JoinIdentity(t) \/ MaxR(t) = 0
-            THEN [t |-> WithP(Xfer(t.dest, t.t), TRUE), persisted |-> mas # "none", paid |-> paid, hooks |-> <<>>]
+            THEN [t |-> WithPC(Xfer(t.dest, t.t), TRUE, TRUE), persisted |-> mas # "none", paid |-> paid, hooks |-> <<>>, weak |-> {}]
             ELSE LET r == Process(t.t, "none", paid) IN
                  IF IsErr(r) THEN r
-                 ELSE [t |-> WithP(Xfer(t.dest, r.t), TRUE), persisted |-> mas # "none", paid |-> r.paid,
+                 ELSE [t |-> WithPC(Xfer(t.dest, r.t), TRUE, mas # "none"), persisted |-> mas # "none", paid |-> r.paid, weak |-> r.weak,
                        hooks |-> Append(r.hooks, [hook |-> "transfer", mas |-> mas,
                                                   ok |-> EvaluableP(r.t, r.paid), trivial |-> Trivial(r.t)])]
       [] t.k = "mat" ->
@@ -70,7 +81,7 @@ Process(t, mas, paid) ==
                      res == IF changed THEN MaterializedBy(r.t, t.name) ELSE t
                  IN IF IsErr(res) THEN res
                     ELSE IF changed /\ HasPayload(res, r.paid)
-                    THEN [t |-> res, persisted |-> TRUE, paid |-> r.paid \cup {t.name}, hooks |-> r.hooks]
+                    THEN [t |-> res, persisted |-> TRUE, paid |-> r.paid \cup {t.name}, hooks |-> r.hooks, weak |-> r.weak]
                     ELSE LET useHook == ~r.persisted /\ ~JoinIdentity(t) /\ MaxR(t) # 0
                              present == IF r.persisted THEN HasPayload(r.t, r.paid) ELSE TRUE
                              hk == [hook |-> "materialize", mas |-> t.name,
@@ -78,6 +89,7 @@ Process(t, mas, paid) ==
                              \* result.attach_payload(payload): on the object materialized() returned
                              newRes == IF ~changed THEN t ELSE WithP(res, present)
                          IN [t |-> newRes, persisted |-> TRUE,
+                             weak |-> IF r.persisted /\ WeakSource(r.t) THEN r.weak \cup {t.name} ELSE r.weak,
                              paid |-> IF present THEN r.paid \cup {t.name} ELSE r.paid,
                              hooks |-> IF useHook THEN Append(r.hooks, hk) ELSE r.hooks]
       [] t.k = "sel" ->
@@ -85,13 +97,13 @@ Process(t, mas, paid) ==
             IF IsErr(r) THEN r
             ELSE LET nt == IF r.t = t.t THEN t ELSE Conform(r.t) IN
                  IF IsErr(nt) THEN nt
-                 ELSE [t |-> nt, persisted |-> r.persisted, paid |-> r.paid, hooks |-> r.hooks]
+                 ELSE [t |-> nt, persisted |-> r.persisted, paid |-> r.paid, hooks |-> r.hooks, weak |-> r.weak]
       [] t.k = "un" ->
             LET r == Process(t.t, "none", paid) IN
             IF IsErr(r) THEN r
             ELSE LET nt == IF r.t = t.t THEN t ELSE ApplyUnary(t.op, r.t, DefaultOpts) IN
                  IF IsErr(nt) THEN nt
-                 ELSE [t |-> nt, persisted |-> FALSE, paid |-> r.paid, hooks |-> r.hooks]
+                 ELSE [t |-> nt, persisted |-> FALSE, paid |-> r.paid, hooks |-> r.hooks, weak |-> r.weak]
       [] t.k = "bin" ->
             LET l == Process(t.l, "none", paid) IN
             IF IsErr(l) THEN l
@@ -99,15 +111,15 @@ Process(t, mas, paid) ==
                  IF IsErr(r) THEN r
                  ELSE LET hooks == l.hooks \o r.hooks IN
                       IF t.op.o = "chain" /\ MaxR(l.t) = 0
-                      THEN [t |-> r.t, persisted |-> r.persisted, paid |-> r.paid, hooks |-> hooks]
+                      THEN [t |-> r.t, persisted |-> r.persisted, paid |-> r.paid, hooks |-> hooks, weak |-> l.weak \cup r.weak]
                       ELSE IF t.op.o = "chain" /\ MaxR(r.t) = 0
-                      THEN [t |-> l.t, persisted |-> l.persisted, paid |-> r.paid, hooks |-> hooks]
+                      THEN [t |-> l.t, persisted |-> l.persisted, paid |-> r.paid, hooks |-> hooks, weak |-> l.weak \cup r.weak]
                       ELSE LET nt == IF l.t = t.l /\ r.t = t.r THEN t
                                      ELSE ApplyBinary(IF t.op.o = "chain" THEN ChainOp
                                                       ELSE [o |-> "join", p |-> t.op.p, common |-> t.op.common, res |-> TRUE],
                                                       l.t, r.t)
                            IN IF IsErr(nt) THEN nt
-                              ELSE [t |-> nt, persisted |-> FALSE, paid |-> r.paid, hooks |-> hooks]
+                              ELSE [t |-> nt, persisted |-> FALSE, paid |-> r.paid, hooks |-> hooks, weak |-> l.weak \cup r.weak]
 
 ProcessTop(t, paid) == Process(t, "none", paid)
 
